@@ -15,8 +15,9 @@ def judge(ctx, case, out):
     classes = set()
     for sp in case["specs"]:
         classes |= K.classify_path(sp, case["tree"])
+    listed = {f.get("class") for f in ctx.load_known()}
     for cls in KNOWN_CLASSES:
-        if cls in classes and ctx.is_known(cls):
+        if cls in classes and cls in listed:
             return ("known", cls)
     return ("violation", bad[0], bad[1])
 
@@ -90,6 +91,7 @@ def run(ctx):
         cases.append({"tree": tree, "record": json.dumps(K.render(tree), separators=(",", ":")), "specs": list(specs),
                       "forms": ["corpus"] * len(specs), "query": q})
     cases += K.gen_c15(ctx, 600 if quick else 6000)
+    replay_known(ctx)
     res = run_cases(ctx, cases)
     if res is None:
         return ctx.finish(rule="(harness failed)")
@@ -135,6 +137,26 @@ def run(ctx):
              "non-existing / hop-on-a-non-document / overlapping forms, every argument order for sets of at most three; "
              "non-trivial = the paths denote at least one location; distinct = distinct (query, record)",
         assumptions=["records are JSON objects", "redact is reached through a query that evaluates to true"])
+
+
+def replay_known(ctx):
+    """Replay the witnesses of the listed findings; say when one no longer reproduces."""
+    for f in ctx.load_known():
+        w = f.get("witness")
+        if not isinstance(w, dict) or "tree" not in w:
+            continue
+        tree = tree_unjson(w["tree"])
+        specs = [tuple(tuple(st) for st in s) for s in w["specs"]]
+        case = {"tree": tree, "record": w["record"], "specs": specs, "forms": [], "query": w["query"]}
+        r = run_cases(ctx, [case])
+        if not r:
+            continue
+        bad = K.c15_oracle(tree, specs, r[0])
+        classes = set().union(*[K.classify_path(sp, tree) for sp in specs])
+        if bad and f.get("class") in classes:
+            ctx.known_finding(f.get("id", f["class"]), "[%s: %s] %s" % (bad[0], bad[1], f.get("text", "")))
+        else:
+            ctx.note("known finding %s no longer reproduces on its witness" % f.get("id"))
 
 
 def tree_json(t):
